@@ -165,9 +165,541 @@ std::string vh::execute(toks_t& toks, std::string&)
     throw bad_op("family");
 }
 
-std::string op_fit(toks_t&)
+// ---- (b) full fits -------------------------------------------------------------------------------------------------
+namespace
 {
-    throw bad_op("fit: not yet");
+struct rng64_t // splitmix64: the dataset is a function of the seed on the op line only
+{
+    uint64_t s;
+
+    uint64_t u64()
+    {
+        s += 0x9E3779B97F4A7C15ULL;
+        uint64_t z = s;
+        z          = (z ^ (z >> 30)) * 0xBF58476D1CE4E5B9ULL;
+        z          = (z ^ (z >> 27)) * 0x94D049BB133111EBULL;
+        return z ^ (z >> 31);
+    }
+
+    double unit() { return static_cast<double>(u64() >> 11) / 9007199254740992.0; }
+
+    double uniform(const double a, const double b) { return a + (b - a) * unit(); }
+};
+
+// `d` continuous features, `ncat` categorical features with 3 classes, then the target: a scalar (planted affine +
+// table function plus uniform noise) or a class label (sign / tercile of the same function)
+class synth_datasource_t final : public datasource_t
+{
+public:
+    synth_datasource_t(const uint64_t seed, const tensor_size_t samples, const tensor_size_t d, const tensor_size_t ncat,
+                       const int classes, const double noise)
+        : datasource_t("synth")
+        , m_seed(seed)
+        , m_samples(samples)
+        , m_d(d)
+        , m_ncat(ncat)
+        , m_classes(classes)
+        , m_noise(noise)
+    {
+    }
+
+    rdatasource_t clone() const override { return std::make_unique<synth_datasource_t>(*this); }
+
+private:
+    void do_load() override
+    {
+        features_t features;
+        for (tensor_size_t i = 0; i < m_d; ++i)
+        {
+            features.push_back(feature_t{"x" + std::to_string(i)}.scalar(feature_type::float64));
+        }
+        for (tensor_size_t i = 0; i < m_ncat; ++i)
+        {
+            features.push_back(feature_t{"c" + std::to_string(i)}.sclass(strings_t{"a", "b", "c"}));
+        }
+        if (m_classes == 0)
+        {
+            features.push_back(feature_t{"y"}.scalar(feature_type::float64));
+        }
+        else
+        {
+            strings_t labels;
+            for (int c = 0; c < m_classes; ++c)
+            {
+                labels.push_back("k" + std::to_string(c));
+            }
+            features.push_back(feature_t{"y"}.sclass(labels));
+        }
+        const auto itarget = static_cast<tensor_size_t>(features.size()) - 1;
+        resize(m_samples, features, static_cast<size_t>(itarget));
+
+        auto rng = rng64_t{m_seed * 0x9E3779B97F4A7C15ULL + 77U};
+
+        std::vector<double> weights(static_cast<size_t>(m_d));
+        for (auto& w : weights)
+        {
+            w = rng.uniform(-1.0, 1.0);
+        }
+        std::vector<double> tables(static_cast<size_t>(3 * m_ncat));
+        for (auto& t : tables)
+        {
+            t = rng.uniform(-1.0, 1.0);
+        }
+        const auto bias = rng.uniform(-0.5, 0.5);
+
+        for (tensor_size_t sample = 0; sample < m_samples; ++sample)
+        {
+            auto y = bias;
+            for (tensor_size_t i = 0; i < m_d; ++i)
+            {
+                const auto x = rng.uniform(-1.0, 1.0);
+                set(sample, i, x);
+                y += weights[static_cast<size_t>(i)] * x;
+            }
+            for (tensor_size_t i = 0; i < m_ncat; ++i)
+            {
+                const auto c = static_cast<int32_t>(rng.u64() % 3U);
+                set(sample, m_d + i, c);
+                y += tables[static_cast<size_t>(3 * i + c)];
+            }
+            y += m_noise * rng.uniform(-1.0, 1.0);
+            if (m_classes == 0)
+            {
+                set(sample, itarget, y);
+            }
+            else if (m_classes == 2)
+            {
+                set(sample, itarget, static_cast<int32_t>(y < bias ? 0 : 1));
+            }
+            else
+            {
+                set(sample, itarget, static_cast<int32_t>(y < bias - 0.4 ? 0 : (y < bias + 0.4 ? 1 : 2)));
+            }
+        }
+    }
+
+    uint64_t      m_seed;
+    tensor_size_t m_samples;
+    tensor_size_t m_d;
+    tensor_size_t m_ncat;
+    int           m_classes;
+    double        m_noise;
+};
+
+std::vector<std::string> split_commas(const std::string& s)
+{
+    std::vector<std::string> out;
+    std::string              cur;
+    for (const char ch : s)
+    {
+        if (ch == ',')
+        {
+            out.push_back(cur);
+            cur.clear();
+        }
+        else
+        {
+            cur.push_back(ch);
+        }
+    }
+    out.push_back(cur);
+    return out;
+}
+
+// targets of the given samples, (sample, flattened target)
+tensor4d_t targets_of(const dataset_t& dataset, const indices_t& samples)
+{
+    tensor4d_t targets(cat_dims(samples.size(), dataset.target_dims()));
+    auto       iterator = targets_iterator_t{dataset, samples};
+    iterator.batch(7);
+    iterator.scaling(scaling_type::none);
+    iterator.loop([&](const tensor_range_t range, size_t, tensor4d_cmap_t batch) { targets.slice(range) = batch; });
+    return targets;
+}
+
+// per-sample errors and loss values of given predictions, computed one sample at a time
+void print_errors_losses(out_t& out, const dataset_t& dataset, const indices_t& samples, const loss_t& loss,
+                         const tensor4d_t& outputs)
+{
+    const auto targets = targets_of(dataset, samples);
+    tensor1d_t errors(samples.size());
+    tensor1d_t values(samples.size());
+    for (tensor_size_t i = 0; i < samples.size(); ++i)
+    {
+        loss.error(targets.slice(i, i + 1), outputs.slice(i, i + 1), errors.slice(i, i + 1));
+        loss.value(targets.slice(i, i + 1), outputs.slice(i, i + 1), values.slice(i, i + 1));
+    }
+    out << static_cast<long long>(samples.size());
+    for (tensor_size_t i = 0; i < samples.size(); ++i)
+    {
+        out << errors(i);
+    }
+    for (tensor_size_t i = 0; i < samples.size(); ++i)
+    {
+        out << values(i);
+    }
+}
+
+void print_stats(out_t& out, const ml::stats_t& st)
+{
+    out << st.m_mean << st.m_stdev << st.m_count << st.m_per01 << st.m_per05 << st.m_per10 << st.m_per20 << st.m_per50
+        << st.m_per80 << st.m_per90 << st.m_per95 << st.m_per99;
+}
+
+void print_reported(out_t& out, const ml::result_t& result, const tensor_size_t trial, const tensor_size_t fold)
+{
+    using namespace nano::ml;
+    print_stats(out, result.stats(trial, fold, split_type::train, value_type::errors));
+    print_stats(out, result.stats(trial, fold, split_type::train, value_type::losses));
+    print_stats(out, result.stats(trial, fold, split_type::valid, value_type::errors));
+    print_stats(out, result.stats(trial, fold, split_type::valid, value_type::losses));
+}
+
+// bias + the sum of the weak learners' predictions, each weak learner evaluated on its own zero buffer
+tensor4d_t predict_sum(const dataset_t& dataset, const indices_t& samples, const tensor1d_t& bias,
+                       const rwlearners_t& wlearners)
+{
+    tensor4d_t outputs(cat_dims(samples.size(), dataset.target_dims()));
+    const auto tsize = ::nano::size(dataset.target_dims());
+    for (tensor_size_t i = 0; i < samples.size(); ++i)
+    {
+        for (tensor_size_t k = 0; k < tsize; ++k)
+        {
+            outputs(i * tsize + k) = bias(k);
+        }
+    }
+    for (const auto& wlearner : wlearners)
+    {
+        tensor4d_t woutputs(outputs.dims());
+        woutputs.zero();
+        wlearner->predict(dataset, samples, woutputs.tensor());
+        for (tensor_size_t k = 0; k < outputs.size(); ++k)
+        {
+            outputs(k) += woutputs(k);
+        }
+    }
+    return outputs;
+}
+
+void print_tensor(out_t& out, const tensor4d_t& t)
+{
+    out << static_cast<long long>(t.size());
+    for (tensor_size_t k = 0; k < t.size(); ++k)
+    {
+        out << t(k);
+    }
+}
+
+void remove_logs(const ml::result_t& result)
+{
+    for (tensor_size_t trial = 0; trial < result.trials(); ++trial)
+    {
+        for (tensor_size_t fold = 0; fold < result.folds(); ++fold)
+        {
+            std::remove(result.log_path(trial, fold).c_str());
+        }
+    }
+    std::remove(result.refit_log_path().c_str());
+}
+
+struct common_args_t
+{
+    uint64_t      seed;
+    tensor_size_t samples, d, ncat;
+    int           classes;
+    std::string   loss;
+    tensor_size_t folds;
+    int64_t       split_seed;
+};
+
+common_args_t read_common(toks_t& toks)
+{
+    common_args_t a{};
+    a.seed    = static_cast<uint64_t>(toks.i64());
+    a.samples = toks.i64();
+    a.d       = toks.i64();
+    a.ncat    = toks.i64();
+    const auto task = toks.s();
+    a.classes = task == "reg" ? 0 : task == "cls2" ? 2 : task == "cls3" ? 3 : -1;
+    a.loss    = toks.s();
+    a.folds   = toks.i64();
+    a.split_seed = toks.i64();
+    if (a.classes < 0 || a.samples < 8 || a.samples > 2000 || a.d < 0 || a.d > 16 || a.ncat < 0 || a.ncat > 8 || a.d + a.ncat < 1)
+    {
+        throw bad_op("fit arguments");
+    }
+    return a;
+}
+
+dataset_t make_dataset(const datasource_t& datasource)
+{
+    auto dataset = dataset_t{datasource};
+    dataset.add<sclass_identity_generator_t>();
+    dataset.add<scalar_identity_generator_t>();
+    return dataset;
+}
+
+// the samples handed to fit(): not all of them and not contiguous
+indices_t fit_samples(const tensor_size_t total)
+{
+    std::vector<tensor_size_t> keep;
+    for (tensor_size_t i = 0; i < total; ++i)
+    {
+        if (i % 7 != 3)
+        {
+            keep.push_back(i);
+        }
+    }
+    indices_t samples(static_cast<tensor_size_t>(keep.size()));
+    for (size_t i = 0; i < keep.size(); ++i)
+    {
+        samples(static_cast<tensor_size_t>(i)) = keep[i];
+    }
+    return samples;
+}
+
+std::string fit_gboost(toks_t& toks)
+{
+    const auto a          = read_common(toks);
+    const auto max_rounds = toks.i64();
+    const auto patience   = toks.i64();
+    const auto epsilon    = toks.f();
+    const auto wscale     = toks.s();
+    const auto shrinkage  = toks.s();
+    const auto subsample  = toks.s();
+    const auto protos     = split_commas(toks.s());
+    const auto noise      = toks.f();
+    const auto batch      = toks.i64();
+    if (!toks.done())
+    {
+        throw bad_op("trailing tokens");
+    }
+
+    auto datasource = synth_datasource_t{a.seed, a.samples, a.d, a.ncat, a.classes, noise};
+    datasource.load();
+    const auto dataset = make_dataset(datasource);
+    const auto samples = fit_samples(dataset.samples());
+    const auto loss    = loss_t::all().get(a.loss);
+    auto       splitter = splitter_t::all().get("k-fold");
+    if (!loss || !splitter)
+    {
+        throw bad_op("loss/splitter id");
+    }
+    splitter->parameter("splitter::seed")  = a.split_seed;
+    splitter->parameter("splitter::folds") = a.folds;
+
+    auto model                                 = gboost_model_t{};
+    model.parameter("gboost::max_rounds")      = max_rounds;
+    model.parameter("gboost::epsilon")         = epsilon;
+    model.parameter("gboost::patience")        = patience;
+    model.parameter("gboost::batch")           = batch;
+    model.parameter("gboost::wscale")          = wscale;
+    model.parameter("gboost::shrinkage")       = shrinkage;
+    model.parameter("gboost::subsample")       = subsample;
+    model.parameter("gboost::subsample_ratio") = 0.8;
+    auto prototypes                            = rwlearners_t{};
+    for (const auto& id : protos)
+    {
+        auto wlearner = wlearner_t::all().get(id);
+        if (!wlearner)
+        {
+            throw bad_op("wlearner id");
+        }
+        prototypes.emplace_back(std::move(wlearner));
+    }
+    model.prototypes(std::move(prototypes));
+
+    auto tuner = tuner_t::all().get("surrogate");
+    tuner->parameter("tuner::max_evals") = 10;
+    const auto fit_params = ml::params_t{}.splitter(*splitter).tuner(*tuner).logger(make_null_logger());
+    const auto result     = model.fit(dataset, samples, *loss, fit_params);
+    remove_logs(result);
+
+    const auto splits = splitter->split(samples);
+    if (static_cast<tensor_size_t>(splits.size()) != result.folds())
+    {
+        throw bad_op("splits");
+    }
+    const auto all_samples = arange(0, dataset.samples());
+
+    out_t out;
+    out << "ok"
+        << "gboost" << result.trials() << result.folds() << result.optimum_trial();
+    tensor4d_t mean_outputs(cat_dims(all_samples.size(), dataset.target_dims()));
+    mean_outputs.zero();
+    for (tensor_size_t trial = 0; trial < result.trials(); ++trial)
+    {
+        for (tensor_size_t fold = 0; fold < result.folds(); ++fold)
+        {
+            const auto& [train_samples, valid_samples] = splits[static_cast<size_t>(fold)];
+            const auto* const pfold = std::any_cast<gboost::result_t>(&result.extra(trial, fold));
+            if (pfold == nullptr)
+            {
+                throw bad_op("no fold result");
+            }
+            out << "T" << trial << fold;
+            // the statistics of the boosting rounds that were kept
+            out << pfold->m_statistics.size<0>() << static_cast<long long>(pfold->m_wlearners.size());
+            for (tensor_size_t round = 0; round < pfold->m_statistics.size<0>(); ++round)
+            {
+                out << pfold->m_statistics(round, 0) << pfold->m_statistics(round, 1) << pfold->m_statistics(round, 2)
+                    << pfold->m_statistics(round, 3);
+            }
+            print_reported(out, result, trial, fold);
+            // from scratch: predict with the stored fold model on the fold's samples
+            print_errors_losses(out, dataset, train_samples, *loss,
+                                predict_sum(dataset, train_samples, pfold->m_bias, pfold->m_wlearners));
+            print_errors_losses(out, dataset, valid_samples, *loss,
+                                predict_sum(dataset, valid_samples, pfold->m_bias, pfold->m_wlearners));
+            if (trial == result.optimum_trial())
+            {
+                const auto outputs = predict_sum(dataset, all_samples, pfold->m_bias, pfold->m_wlearners);
+                for (tensor_size_t k = 0; k < outputs.size(); ++k)
+                {
+                    mean_outputs(k) += outputs(k);
+                }
+            }
+        }
+    }
+    for (tensor_size_t k = 0; k < mean_outputs.size(); ++k)
+    {
+        mean_outputs(k) /= static_cast<scalar_t>(result.folds());
+    }
+    out << "F";
+    print_stats(out, result.stats(ml::value_type::errors));
+    print_stats(out, result.stats(ml::value_type::losses));
+    print_errors_losses(out, dataset, samples, *loss, model.predict(dataset, samples));
+    out << "P";
+    print_tensor(out, model.predict(dataset, all_samples));
+    print_tensor(out, predict_sum(dataset, all_samples, model.bias(), model.wlearners()));
+    print_tensor(out, mean_outputs);
+    return out.str();
+}
+
+// W x + b on the unscaled flattened inputs, one sample at a time
+tensor4d_t predict_linear(const dataset_t& dataset, const indices_t& samples, const tensor2d_t& weights,
+                          const tensor1d_t& bias)
+{
+    tensor4d_t outputs(cat_dims(samples.size(), dataset.target_dims()));
+    const auto tsize    = ::nano::size(dataset.target_dims());
+    auto       iterator = flatten_iterator_t{dataset, samples};
+    iterator.batch(5);
+    iterator.scaling(scaling_type::none);
+    iterator.loop(
+        [&](const tensor_range_t range, size_t, tensor2d_cmap_t inputs)
+        {
+            for (tensor_size_t i = 0; i < range.size(); ++i)
+            {
+                for (tensor_size_t k = 0; k < tsize; ++k)
+                {
+                    auto acc = bias(k);
+                    for (tensor_size_t c = 0; c < inputs.size<1>(); ++c)
+                    {
+                        acc += weights(k, c) * inputs(i, c);
+                    }
+                    outputs((range.begin() + i) * tsize + k) = acc;
+                }
+            }
+        });
+    return outputs;
+}
+
+std::string fit_linear(toks_t& toks)
+{
+    const auto a        = read_common(toks);
+    const auto model_id = toks.s();
+    const auto scaling  = toks.s();
+    const auto solver_id = toks.s();
+    const auto noise    = toks.f();
+    const auto batch    = toks.i64();
+    if (!toks.done())
+    {
+        throw bad_op("trailing tokens");
+    }
+
+    auto datasource = synth_datasource_t{a.seed, a.samples, a.d, a.ncat, a.classes, noise};
+    datasource.load();
+    const auto dataset  = make_dataset(datasource);
+    const auto samples  = fit_samples(dataset.samples());
+    const auto loss     = loss_t::all().get(a.loss);
+    auto       splitter = splitter_t::all().get("k-fold");
+    auto       model    = linear_t::all().get(model_id);
+    auto       solver   = solver_t::all().get(solver_id);
+    if (!loss || !splitter || !model || !solver)
+    {
+        throw bad_op("loss/splitter/model/solver id");
+    }
+    splitter->parameter("splitter::seed")  = a.split_seed;
+    splitter->parameter("splitter::folds") = a.folds;
+    model->parameter("linear::batch")      = batch;
+    model->parameter("linear::scaling")    = scaling;
+    solver->parameter("solver::epsilon")   = 1e-8;
+    solver->parameter("solver::max_evals") = 2000;
+
+    auto tuner = tuner_t::all().get("surrogate");
+    tuner->parameter("tuner::max_evals") = 10;
+    const auto fit_params = ml::params_t{}.splitter(*splitter).tuner(*tuner).solver(*solver).logger(make_null_logger());
+    const auto result     = model->fit(dataset, samples, *loss, fit_params);
+    remove_logs(result);
+
+    const auto splits = splitter->split(samples);
+    if (static_cast<tensor_size_t>(splits.size()) != result.folds())
+    {
+        throw bad_op("splits");
+    }
+
+    out_t out;
+    out << "ok"
+        << "linear" << result.trials() << result.folds() << result.optimum_trial();
+    for (tensor_size_t trial = 0; trial < result.trials(); ++trial)
+    {
+        for (tensor_size_t fold = 0; fold < result.folds(); ++fold)
+        {
+            const auto& [train_samples, valid_samples] = splits[static_cast<size_t>(fold)];
+            const auto* const pfold = std::any_cast<linear::result_t>(&result.extra(trial, fold));
+            if (pfold == nullptr)
+            {
+                throw bad_op("no fold result");
+            }
+            out << "T" << trial << fold;
+            print_reported(out, result, trial, fold);
+            print_errors_losses(out, dataset, train_samples, *loss,
+                                predict_linear(dataset, train_samples, pfold->m_weights, pfold->m_bias));
+            print_errors_losses(out, dataset, valid_samples, *loss,
+                                predict_linear(dataset, valid_samples, pfold->m_weights, pfold->m_bias));
+        }
+    }
+    out << "F";
+    print_stats(out, result.stats(ml::value_type::errors));
+    print_stats(out, result.stats(ml::value_type::losses));
+    print_errors_losses(out, dataset, samples, *loss, model->predict(dataset, samples));
+    out << "P";
+    const auto all_samples = arange(0, dataset.samples());
+    print_tensor(out, model->predict(dataset, all_samples));
+    print_tensor(out, predict_linear(dataset, all_samples, model->weights(), model->bias()));
+    // the refit result stored next to the final statistics must be the model itself
+    const auto* const prefit = std::any_cast<linear::result_t>(&result.extra());
+    if (prefit == nullptr)
+    {
+        throw bad_op("no refit result");
+    }
+    print_tensor(out, predict_linear(dataset, all_samples, prefit->m_weights, prefit->m_bias));
+    return out.str();
+}
+} // namespace
+
+std::string op_fit(toks_t& toks)
+{
+    const auto kind = toks.s();
+    if (kind == "gboost")
+    {
+        return fit_gboost(toks);
+    }
+    if (kind == "linear")
+    {
+        return fit_linear(toks);
+    }
+    throw bad_op("fit kind");
 }
 
 int main()
